@@ -279,5 +279,10 @@ def handle(cmd, args):
     r = py_mm.handle(cmd, args)
     if r is not None:
         return r
+    if cmd.startswith('taut-'):
+        from harness.py import py_taut
+        r = py_taut.handle(cmd, args)
+        if r is not None:
+            return r
     from harness.py import py_cmds2
     return py_cmds2.handle(cmd, args)
